@@ -79,7 +79,14 @@ func (r *Result) HitKnown(id, what, firstCase string) {
 
 // AddViolation writes the replay file and records the violation (at most 5 are kept).
 func (r *Result) AddViolation(kind, detail, caseText string, noFailingInput bool) {
-	if len(r.Violations) >= 5 {
+	// at most 4 violations without a failing input and 4 with one are kept
+	n := 0
+	for _, v := range r.Violations {
+		if v.NoFailingInput == noFailingInput {
+			n++
+		}
+	}
+	if n >= 4 {
 		return
 	}
 	dir := "/verif/replays"
